@@ -374,6 +374,13 @@ func (vc *FnVC) u256Method(in *ssa.Call, m string, args []ssa.Value) bool {
 	case "Lt", "Gt", "Eq":
 		op := map[string]string{"Lt": "<", "Gt": ">", "Eq": "="}[m]
 		vc.setRes(in, boolT(vc.defineNamed("cmp", "Bool", fmt.Sprintf("(%s %s %s)", op, get(0), get(1)))))
+	case "Slt", "Sgt":
+		// signed (two's complement, 256 bit) comparison
+		sv := func(x string) string {
+			return fmt.Sprintf("(ite (>= %s %s) (- %s %s) %s)", x, pow2(255).String(), x, two256, x)
+		}
+		op := map[string]string{"Slt": "<", "Sgt": ">"}[m]
+		vc.setRes(in, boolT(vc.defineNamed("scmp", "Bool", fmt.Sprintf("(%s %s %s)", op, sv(get(0)), sv(get(1))))))
 	case "LtUint64", "GtUint64":
 		op := map[string]string{"LtUint64": "<", "GtUint64": ">"}[m]
 		vc.setRes(in, boolT(vc.defineNamed("cmp", "Bool", fmt.Sprintf("(%s %s %s)", op, get(0), a(1)))))
